@@ -18,6 +18,7 @@ func init() {
 			"D3 snapshot fidelity: for every struct of the Data graph each field is read by marshal and restored by unmarshal (derived fields are frozen exceptions); " +
 			"D4 acknowledge after commit: raftState.apply / store.apply / serveExec / Client.retryUntilExec report success only after the preceding step returned nil, and the client waits for its cache to reach the command's index. " +
 			"D1 also: deep copies are unconditional (only nil/length tests of the copied field may guard them); D5 store.afterIndex compares the index and hands out dataChanged in one critical section of store.mu (lost wake-up of a long poll otherwise). " +
+			"D2 also: Persist reports success only after sink.Close() returned nil as a tested call; D6 Apply is total over the registry and validated before proposal (shared with C06 D4). " +
 			"NOT decided: raft itself (hashicorp/raft is outside the repository), convergence timing, leader failover.",
 		RuleText:    "obligation = (rule, type.field | function | site); type-graph walk with per-field clone obligations; nil-fact dataflow at dereference sites; field read/write agreement of marshal/unmarshal pairs",
 		Assumptions: commonAssumptions,
